@@ -4,10 +4,15 @@ flag Exact only exact results (DESIGN §8 C11) — PARTIAL: proof + certified ex
 Two-pass flow (kept inside this module): `generate` first runs the harness alone on the raw cases
 (`f.exp <x>` …) and appends what the implementation printed to each case line
 (`f.exp <x> | ok <sig> <exp> <prec> <flag>`).  `./check` then runs both sides on those lines: the harness
-recomputes (ignoring everything after `|`), the Lean driver does NOT mirror dashu's series — it runs
-the model of the entry guards and otherwise *certifies the claim* against enclosures of the real value
-that are proved sound in Lean (`Props/C11.lean`), echoing the claim iff the certificate holds.
+recomputes (ignoring everything after `|`), the Lean driver runs the model of the entry guards and otherwise
+*certifies the claim* against enclosures of the real value that are proved sound in Lean (`Props/C11.lean`),
+echoing the claim iff the certificate holds.  Since round 4 the driver ALSO runs the statement-by-statement
+mirror of exp_internal / ln_internal / iacoth / ln2 / ln10 / ln_base / powf (`Model/Trans/Series.lean`) and compares
+it digit for digit (significand, exponent, flag) with the claim (`mirror-drift:` otherwise, judged below), and the
+working-precision / guard / stop-test statements of the source are compared as text with the table the mirror
+was written against (`source_formulas`, op `tie.formula`).
 """
+import re
 import os, subprocess, tempfile, shutil, math
 from fractions import Fraction
 from decimal import Decimal, getcontext, localcontext
@@ -21,8 +26,8 @@ LEAN_PROPS = "Dashu.Props.C11"
 LEAN_AUDIT = "Dashu.Audit.C11"
 # the powi error bound builds on builder-float's C03 contracts (Dashu/Proofs/Float, imported read-only); it is kept
 # in a module of its own so that Props/C11 never depends on them
-GEN_PROPS = ["Dashu.Props.C11Powi", "Dashu.Props.C11Formulas", "Dashu.Props.C11Float"]
-GEN_AUDIT = ["Dashu.Audit.C11Powi", "Dashu.Audit.C11Formulas", "Dashu.Audit.C11Float"]
+GEN_PROPS = ["Dashu.Props.C11Powi", "Dashu.Props.C11Formulas", "Dashu.Props.C11Float", "Dashu.Props.C11Series"]
+GEN_AUDIT = ["Dashu.Audit.C11Powi", "Dashu.Audit.C11Formulas", "Dashu.Audit.C11Float", "Dashu.Audit.C11Series"]
 JOBS = 14
 
 BASES = [2, 3, 10, 16, 36]
@@ -510,6 +515,123 @@ def adversarial_cases(rng, tier, n):
         except Exception:
             continue
 
+def overflow_edge_cases(rng, tier):
+    """exp / exp_m1 at the edge of the exponent range: the two `exponent is too large` sites of exp_internal
+    (`x_log2 > isize::BITS + log2 B + 1` decided on the estimate, and `s.try_into::<isize>()` after the division by
+    ln B) and the last arguments below them (|x| just under 2^63·ln B: a result with an exponent next to isize::MAX)"""
+    for B in BASES:
+        lnB = math.log(B)
+        for p in ((3, 20) if tier == "quick" else (1, 3, 20, 53)):
+            for mag in (2.0 ** 62, 2.0 ** 63 * lnB * 0.999, 2.0 ** 63 * lnB * 1.001, 2.0 ** 64 * lnB, 2.0 ** 66 * B, 2.0 ** 70 * B):
+                m = rng.choice(MODES)
+                s, e = round_frac(Fraction(mag), B, min(p, 12))
+                if rng.random() < 0.5:
+                    s = -s
+                # (exp_m1 of a huge POSITIVE argument is left to exp: the certificate side does not evaluate it)
+                yield ("f." + (rng.choice(["exp", "exp_m1"]) if s < 0 else "exp"), [fenc(B, s, e, p, m)])
+
+def pow_guard_arm_cases(rng, tier):
+    """exp / exp_m1 / powf at precisions where `pow_guard_digits.max(n + 2)` takes its SECOND arm (n = 2^(bit_len p / 2)
+    outgrows 2·bit_len p·log2 B: bases 2 and 3 from p = 512, base 10 from p = 8192) and at the powers of two where
+    n doubles (p = 2^k - 1, 2^k)"""
+    ps = (255, 256, 600, 1024) if tier == "quick" else (255, 256, 511, 512, 600, 1023, 1024, 2047, 2048, 4100)
+    for B in (2, 3):
+        for p in ps:
+            for op in ("exp", "exp_m1") if tier == "quick" else ("exp", "exp_m1", "exp", "powf"):
+                m = rng.choice(MODES)
+                s, e = float_with_top(rng, B, p, rng.choice([-2, 0, 1, 3]), rng.choice([3, p]))
+                if op == "powf":
+                    t, f = float_with_top(rng, B, p, rng.choice([-1, 0, 1]), rng.choice([2, p]))
+                    yield ("f.powf", [fenc(B, abs(s), e, p, m), fenc(B, t, f, p, m)])
+                else:
+                    yield ("f." + op, [fenc(B, s if rng.random() < 0.5 else -s, e, p, m)])
+
+# ----------------------------------------------------------------------------- source-text tie (Tie A, textual)
+
+_FORMULAS = [  # (name, file, fn, which `fn <name>` in the file, anchor regex, which match, end character)
+    ("powi.neg.guard_bits", "float/src/exp.rs", "powi", 1, r"let guard_bits\b", 0, ";"),
+    ("powi.guard_digits", "float/src/exp.rs", "powi", 1, r"let guard_digits\b", 0, ";"),
+    ("powf.ln_base_ub", "float/src/exp.rs", "powf", 1, r"let ln_base_ub\b", 0, ";"),
+    ("powf.arg_log2", "float/src/exp.rs", "powf", 1, r"let arg_log2\b", 0, ";"),
+    ("powf.arg_digits", "float/src/exp.rs", "powf", 1, r"let arg_digits\b", 0, ";"),
+    ("powf.guard_digits", "float/src/exp.rs", "powf", 1, r"let guard_digits\b", 0, ";"),
+    ("exp.series_guard_digits", "float/src/exp.rs", "exp_internal", 0, r"let series_guard_digits\b", 0, ";"),
+    ("exp.pow_guard_digits", "float/src/exp.rs", "exp_internal", 0, r"let pow_guard_digits\b", 0, ";"),
+    ("exp.no_scaling", "float/src/exp.rs", "exp_internal", 0, r"let no_scaling\b", 0, ";"),
+    ("exp.work_precision.1", "float/src/exp.rs", "exp_internal", 0, r"work_precision =", 0, ";"),
+    ("exp.work_precision.2", "float/src/exp.rs", "exp_internal", 0, r"work_precision =", 1, ";"),
+    ("exp.n", "float/src/exp.rs", "exp_internal", 0, r"let n = ", 0, ";"),
+    ("exp.too_large", "float/src/exp.rs", "exp_internal", 0, r"if x_log2 > isize", 0, "{"),
+    ("exp.int_digits", "float/src/exp.rs", "exp_internal", 0, r"let int_digits\b", 0, ";"),
+    ("exp.work_precision.3", "float/src/exp.rs", "exp_internal", 0, r"work_precision =", 2, ";"),
+    ("exp.m1_powering_context", "float/src/exp.rs", "exp_internal", 0, r"Context::<R>::new\(self\.precision \+ self\.precision", 0, "}"),
+    ("exp.stop_test", "float/src/exp.rs", "exp_internal", 0, r"if increase\.", 0, "{"),
+    ("iacoth.guard_digits", "float/src/log.rs", "iacoth", 0, r"let guard_digits\b", 0, ";"),
+    ("iacoth.work_context", "float/src/log.rs", "iacoth", 0, r"let work_context\b", 0, ";"),
+    ("iacoth.stop_test", "float/src/log.rs", "iacoth", 0, r"if increase ", 0, "{"),
+    ("ln2.formula", "float/src/log.rs", "ln2", 0, r"4 \* self", 0, "}"),
+    ("ln10.formula", "float/src/log.rs", "ln10", 0, r"3 \* self", 0, "}"),
+    ("ln.guard_digits", "float/src/log.rs", "ln_internal", 0, r"let guard_digits\b", 0, ";"),
+    ("ln.work_precision", "float/src/log.rs", "ln_internal", 0, r"let mut work_precision\b", 0, ";"),
+    ("ln.no_scaling", "float/src/log.rs", "ln_internal", 0, r"let no_scaling\b", 0, ";"),
+    ("ln.s", "float/src/log.rs", "ln_internal", 0, r"let s = log2", 0, ";"),
+    ("ln.grow_test", "float/src/log.rs", "ln_internal", 0, r"if s < 0", 0, "{"),
+    ("ln.grow", "float/src/log.rs", "ln_internal", 0, r"work_precision \+=", 0, ";"),
+    ("ln.stop_test", "float/src/log.rs", "ln_internal", 0, r"if increase\.", 0, "{"),
+    ("sub_ulp.exponent", "float/src/fbig.rs", "sub_ulp", 0, r"exponent: self", 0, "}"),
+]
+
+def _fn_body(text, fn, nth):
+    m = [m for m in re.finditer(r"\bfn\s+%s\b" % re.escape(fn), text)][nth]
+    i = text.index("{", m.end())
+    d = 0
+    for j in range(i, len(text)):
+        if text[j] == "{":
+            d += 1
+        elif text[j] == "}":
+            d -= 1
+            if d == 0:
+                return text[i:j + 1]
+    raise ValueError(fn)
+
+def _stmt(body, anchor, idx, end):
+    ms = list(re.finditer(anchor, body))
+    if idx >= len(ms):
+        return "MISSING"
+    i = ms[idx].start()
+    d = 0
+    for j in range(i, len(body)):
+        c = body[j]
+        if c == end and d == 0:
+            return " ".join(body[i:j + 1].split())
+        if c in "{(":
+            d += 1
+        elif c in "})":
+            d -= 1
+        if d < 0:
+            return " ".join(body[i:j].split())
+    return "MISSING"
+
+def source_formulas(repo=None):
+    """the statements of float/src/{exp,log,fbig}.rs that the mirror `Model/Trans/Series.lean` is written against
+    (working precisions, guard digits, branch and stop tests), extracted from the repository under check:
+    comments stripped, white space collapsed.  Compared with `Model/Trans/SourceText.lean` by op `tie.formula`."""
+    repo = repo or core.REPO
+    cache, out = {}, []
+    for name, f, fn, nth, anchor, idx, end in _FORMULAS:
+        try:
+            if f not in cache:
+                cache[f] = re.sub(r"//[^\n]*", "", open(os.path.join(repo, f)).read())
+            t = _stmt(_fn_body(cache[f], fn, nth), anchor, idx, end)
+        except Exception:
+            t = "MISSING"
+        out.append((name, t))
+    return out
+
+def tie_cases():
+    for name, t in source_formulas():
+        yield Case("tie.formula", [name, "s:" + t.encode("utf-8").hex()])
+
 def raw_cases(rng, tier):
     global BIG_EXP
     q = tier == "quick"
@@ -521,6 +643,8 @@ def raw_cases(rng, tier):
     yield from large_argument_cases(rng, tier)
     yield from ln_scale_cases(rng, tier)
     yield from extreme_base_powf_cases(rng, tier)
+    yield from overflow_edge_cases(rng, tier)
+    yield from pow_guard_arm_cases(rng, tier)
     yield from sparse_power_cases(rng, tier)
     yield from powi_big_cases(rng, tier, 60 if q else int(600 * sc))
     yield from powf_cases(rng, tier, 350 if q else int(4000 * sc))
@@ -629,16 +753,21 @@ def generate(rng, tier):
     # witnesses first: corpus/C11/*.rawcase (raw `op args` lines; their claims are observed afresh on
     # every run, so a repaired implementation is judged on what it prints now) and the out-of-domain
     # probes corpus/C11/*.probe (short watchdog)
+    yield from tie_cases()
     probes = load_raw(".probe")
     yield from with_claims(probes, probe(probes))
     raw = load_raw(".rawcase") + list(raw_cases(rng, tier))
     yield from with_claims(raw, observe(raw, per_case_timeout=60 if tier == "quick" else 300))
 
 def judge(c, ri, rm):
-    """property-level judge for a drifting MIRROR: the powi loop model (subject of Props/C11Powi) printed other
-    digits than the code, but the certificate accepted the code's result — the property holds on this input,
-    only the correspondence model<->code is broken"""
+    """property-level judge for a drifting MIRROR: the mirrored algorithm (the powi loop of Props/C11Powi, or the
+    series of Model/Trans/Series.lean) printed other digits / another flag than the code, but the certificate accepted
+    the code's result — the property holds on this input, only the correspondence model<->code is broken"""
     if " mirror-drift:" in rm and rm.split(" mirror-drift:")[0] == ri:
+        return "holds"
+    if c.op == "tie.formula":
+        # a statement of the source differs from the text the mirror was written against: the model no longer
+        # mirrors the code; no input was seen to violate the property
         return "holds"
     return "violates"
 
@@ -841,6 +970,20 @@ THEOREMS = [
     "Dashu.Props.C11Formulas.exp_reduction",
     "Dashu.Props.C11Float.checkedPowfFloatScaled_sound",
     "Dashu.Props.C11Float.checkedLnFloat_sound",
+    "Dashu.Props.C11Series.powLoopF_value",
+    "Dashu.Props.C11Series.powiNonnegF_value",
+    "Dashu.Props.C11Series.expLoop_fuel_irrelevant",
+    "Dashu.Props.C11Series.lnLoop_fuel_irrelevant",
+    "Dashu.Props.C11Series.iacothLoop_fuel_irrelevant",
+    "Dashu.Props.C11Series.expLoop_deterministic",
+    "Dashu.Props.C11Series.expLoop_steps",
+    "Dashu.Props.C11Series.expWorkPrec_eq",
+    "Dashu.Props.C11Series.expWorkPrecNoScaling_eq",
+    "Dashu.Props.C11Series.lnWorkPrec_eq",
+    "Dashu.Props.C11Series.iacothWorkPrec_eq",
+    "Dashu.Props.C11Series.powfGuardDigits_eq",
+    "Dashu.Props.C11Series.powiWorkPrec_eq",
+    "Dashu.Props.C11Series.workPrec_gt",
 ]
 
 REFINED = ["Context::exp_internal entry guards (assert_finite, assert_limited_precision, zero shortcut)",
@@ -851,10 +994,41 @@ REFINED = ["Context::exp_internal entry guards (assert_finite, assert_limited_pr
            "p + exp.bit_len + p.bit_len, final with_precision) is mirrored on builder-float's C03 model, tied to the code "
            "digit for digit on every powi case, and carries a proved error bound (Props/C11Powi.lean)",
            "Context::powi, negative exponent: reversed context at p + 2*bit_len p digits, inner non-negative power, repr_div, "
-           "final repr_round mirrored (Model/Trans/PowiNeg.lean), tied digit for digit, error bound + nearest-mode < 1 ulp proved"]
-FRONTIER = ["the numerical bodies of exp_internal / ln_internal / iacoth / ln2 / ln10 / powf "
-            "are NOT mirrored: each result is certified a posteriori against a proved enclosure of the real value",
-            "that the certificate succeeds on every input (i.e. that the heuristic guard digits always suffice) is NOT proved"]
+           "final repr_round mirrored (Model/Trans/PowiNeg.lean), tied digit for digit, error bound + nearest-mode < 1 ulp proved",
+           "Context::exp_internal numerical body (working precision, no_scaling branch, argument reduction x = s*ln B + r via "
+           "FBig::div_rem_euclid, r >> n, Maclaurin loop with the sub_ulp stop test, final powering exp(r)^(B^n) through powi, "
+           "<< s, the exp_m1 subtraction at p + p/8 + 1 digits, mark_inexact) mirrored statement by statement "
+           "(Model/Trans/Series.lean expBody) on builder-float's C03 model and executed by the driver: significand, exponent AND flag "
+           "equal the implementation's on every mirrored case",
+           "Context::ln_internal numerical body (working precision, no_scaling, floor(log2 x) from log2_bounds, scaling by 2^s "
+           "(shift / division / multiplication by FBig::from(2^s)), precision doubling for s < 0, z = (x-1)/(x+1), atanh loop with "
+           "the sub_ulp stop test, 2*sum + s*ln2, with_precision, mark_inexact) mirrored (lnBody), same tie",
+           "Context::iacoth / ln2 / ln10 / ln_base (all four arms: 2, 10, power of two, generic through ln) mirrored "
+           "(iacoth, ln2, ln10, lnBase), tied through every exp / powf case",
+           "Context::powf numerical body (guard digits from log2_est, ln at the working context, Context::mul, exp, "
+           "with_precision, the and_then flag chain) mirrored (powfBody), same tie",
+           "FBig operator layer used by the series (Context::max, FBig::from(integer) precision = digit count, "
+           "convert_int, sub_ulp via digits_lb, div_rem_euclid / align_as_int, shifts) mirrored (fMul, fAddSub, fDiv, fOfInt, "
+           "fConvertInt, fSubUlp, fDivRemEuclid) — the growth of the operand precisions beyond the working precision is reproduced",
+           "f32 estimates of exp.rs / log.rs (usize/Word log2_est, IBig log2_est, Repr::log2_est, Repr::log2_bounds with the f64 "
+           "intermediate, `as usize` / `as isize` casts): bit-exact Float32 replica in the driver (Driver/TransEst.lean), an oracle "
+           "parameter (`Est`) of the model and of every theorem",
+           "the working-precision / guard-digit / branch-test / stop-test STATEMENTS of exp.rs, log.rs, fbig.rs::sub_ulp "
+           "(30 statements): extracted from the repository under check on every run and compared as text with the table the "
+           "mirror was written against (Model/Trans/SourceText.lean, op tie.formula)"]
+FRONTIER = ["that the certificate succeeds on every input (i.e. that the heuristic guard digits always suffice) is NOT proved: "
+            "each result is certified a posteriori against a proved enclosure of the real value",
+            "termination of the three series loops with an explicit step bound is NOT proved (the model loops carry a fuel; "
+            "proved: the result does not depend on the fuel, `*_fuel_irrelevant`): a bound needs a two-sided quality "
+            "hypothesis on digits_lb (sub_ulp may be arbitrarily small under the soundness hypothesis alone) and a decay argument "
+            "through the rounded FBig operators whose precision grows with the factorial; the driver reports an exhausted fuel "
+            "(10^6 steps) as `mirror-fuel`, never seen",
+            "no error-propagation theorem for the series stages of exp_internal / ln_internal (only for the final powering stage, "
+            "through powiNonnegF_value + C11Powi.powi_nonneg_error)",
+            "FBig comparison inside the stop tests (abs_cmp, <) is at specification (value order; C14 proves the code's comparison), "
+            "IBig::div_rem_euclid is Int.ediv/emod",
+            "mirror runs are budgeted: every case up to p*floor(log2 B) <= 1700, one in four up to 5300, none above and none for "
+            "|exponent| > 20000 (`mirror-skip` / no annotation): there only the certificate decides"]
 RULE = ("raw cases = entry-guard table (precision 0, +-inf, negative base, exact shortcuts; every base) + "
         "exp/exp_m1 arguments {ordinary, +-B^-k down to B^-1000 and next to 0, small integers and reciprocals, up to 1e18 "
         "(exp), B^-1000-sized} + ln arguments {1 +- B^-k, ordinary, integers, powers of the base, reciprocals, B^+-5000} + ln_1p "
@@ -863,7 +1037,11 @@ RULE = ("raw cases = entry-guard table (precision 0, +-inf, negative base, exact
         "adversarial arguments ln(t) / exp(t) of p-digit targets t (result within ~B^-2 ulp of a representable number or of "
         "a midpoint; also with 2p-digit operands) x bases {2,3,10,16,36} x six modes x precisions {1,2,3,10,53,100} "
         "(+1000, 3000 thorough) x {FBig method + Context method (all forms), Context method on an over-long operand}. "
-        "Pass 1 runs the harness and appends the printed result to the case; pass 2 runs harness and model driver. "
+        "+ exp at the edge of the exponent range (both `exponent is too large` sites and the last arguments below them) + "
+        "precisions where pow_guard_digits.max(n+2) takes its second arm (bases 2, 3; p in {255, 256, 600, 1024}, more in thorough) "
+        "+ 30 `tie.formula` cases (source statements of the working precisions as text). "
+        "Pass 1 runs the harness and appends the printed result to the case; pass 2 runs harness and model driver "
+        "(entry guards, certificate, and the statement-by-statement mirror of the series: significand, exponent, flag must be equal). "
         "Non-trivial := decided by the certificate (result with non-zero precision); distinct := distinct case lines.")
 EXPLANATION = ("Proved in Lean for all inputs: (1) the entry-guard clauses (exp 0 = 1, exp_m1 0 = 0, ln 1 = 0, ln_1p 0 = 0, "
                "x^0 = 1 flagged Exact; x^1 = the operand rounded to the context; unlimited precision, infinities, negative "
@@ -879,7 +1057,10 @@ EXPLANATION = ("Proved in Lean for all inputs: (1) the entry-guard clauses (exp 
                "in the directed modes < 1 ulp is false for any guard (counterexample theorem, reproduced by the model). NOT proved: that dashu's results always pass the certificate (its guard-digit "
                "counts are heuristic); this residual is explored: every generated input is run on the real code and its "
                "result certified; a failed certificate is a violation with that input, an exhausted effort budget is "
-               "counted as undecided.")
+               "counted as undecided. (5) Round 4: the numerical bodies are mirrored (Model/Trans/Series.lean) and run by the driver; "
+               "Props/C11Series proves the fuel independence of the three series loops, that the powering stage has the value "
+               "analysed in C11Powi, and the working-precision formulas as evaluated; the mirror agrees with the implementation "
+               "in significand, exponent and flag on every budgeted case (a disagreement is a `mirror-drift`).")
 ASSUMPTIONS = ["the harness prints the value the library returned (pass 1 and pass 2 are the same deterministic computation)",
                "Mathlib's Real.exp / Real.log / Real.rpow are the functions the property speaks about"]
 LEVEL_TEXT = ("proof (partial) + certified exploration of the residual: machine-checked Lean 4 theorems for the exactness and "
@@ -887,10 +1068,17 @@ LEVEL_TEXT = ("proof (partial) + certified exploration of the residual: machine-
               "of the rational enclosures of exp and ln (all arguments, all efforts), and for the certificate test (accept => "
               "within 1 ulp and Exact only if exact; reject => not). That the certificate always succeeds on dashu's results is "
               "NOT proved; it is explored by running the real code on structured and adversarial inputs and certifying every "
-              "result against the proved enclosures.")
+              "result against the proved enclosures. The numerical bodies (exp_internal, ln_internal, iacoth, ln2, ln10, ln_base, "
+              "powf) are mirrored statement by statement in the Lean model and tied to the code digit for digit on every "
+              "budgeted case; proved about the mirror: fuel independence of the series loops, the value link of its powering stage "
+              "to the powi error bound, the spelled-out working-precision formulas.")
 LEVEL_NOTE = ("Trusted: Lean kernel; axioms propext/Classical.choice/Quot.sound; Mathlib's definitions of exp/log/rpow; the "
               "harness output format; the generators (sampling) for the unproved residual. The numerical algorithms of "
-              "exp_internal/ln_internal are not modelled - a result is only ever accepted through the certificate theorem.")
+              "exp_internal/ln_internal/iacoth/powf ARE mirrored and compared digit for digit (Tie B) and their precision formulas "
+              "are compared with the source text (Tie A, textual), but no accuracy theorem is drawn from the mirror - a result "
+              "is only ever accepted through the certificate theorem. The Float32 replica of the f32 estimates is trusted to be the "
+              "same IEEE arithmetic / libm log2f as the Rust build (checked by the digit-for-digit tie on every case).")
 TECHNIQUE = ("Lean 4 + Mathlib analysis (Real.exp_bound', hasSum_log_sub_log_of_abs_lt_one): verified interval enclosures; "
-             "a-posteriori certification of the implementation's results; differential run of the guard model")
+             "a-posteriori certification of the implementation's results; differential run of the guard model and of the mirrored "
+             "series (digit-for-digit); textual source tie of the precision formulas")
 READY = True
